@@ -68,6 +68,8 @@ def do_step(am, s, st, k, orig_n):
                 p = p + np.array([1 / 256, 0.0, -1 / 512])
             elif off == 'beyond':
                 p = p + np.array([1 / 16, 0.0, 0.0])
+            elif off == 'corner':      # every component within the tolerance, the distance beyond it
+                p = p + np.array([1 / 128, -1 / 128, 1 / 128])
             if scale:
                 p = s.box.position_cartesian_to_relative(p)
             kw['pos'] = p.tolist() if k % 2 else p
